@@ -282,6 +282,10 @@ def main():
         ("@@\n@@\n foo(...)\n-bar(...)\n+baz(...)\n+qux(...)\n", "func h() {\n\tfoo(1)\n\tbar(2, 3)\n}\n"),
         ("@@\n@@\n-foo(...,\n-  bar(...))\n+foo(bar(...), ...)\n", "func h() {\n\tfoo(1, 2, bar(3, 4))\n}\n"),
     ]
+    # an elided run that stands for nothing where the absence of the list is syntax: 'var b Old' (no '='), 'return f()'
+    for nm, pt, body, mt in enginegen.extra_pairs():
+        if nm.split(":")[1] in ("valuespec-dots", "case-dots", "return-dots", "composite-empty", "params-dots", "results-dots", "struct-fields-dots"):
+            pairs.append(("p.patch", pt, "a.go", body)); names.append("empty-run:" + nm); meta.append(("empty-run", None, None, None))
     for j, (pt, body) in enumerate(ASSOC):
         pairs.append(("p.patch", pt.encode(), "a.go", ("package p\n\n" + body).encode())); names.append("assoc#%d" % j); meta.append(("assoc", None, None, None))
     # for-headers
@@ -363,7 +367,8 @@ def main():
                         ck.violation("statement pattern [%s] against block [%s]: expected %s, gopatch produced %s"
                                      % (" ".join(pat), " ".join(l), want, got),
                                      {"patch": pair[1].decode(), "block": l, "expected": want, "got": got})
-        enginecheck.report(ck, name, (pair[0], pair[1], pair[2], pair[3][:1500]), o, "any", None)
+        enginecheck.report(ck, name, (pair[0], pair[1], pair[2], pair[3][:1500]), o, "any",
+                           {"must_parse": True} if kind in ("empty-run", "assoc") else None)
     ck.notes["pattern_list_pairs_judged_by_reference"] = npairs
     ck.sample({"case": names[10], "patch": pairs[10][1].decode(), "lists": len(base_lists)})
     ck.sample({"case": names[-30], "patch": pairs[-30][1].decode()})
